@@ -65,7 +65,7 @@ fn holes(t: &str) -> usize {
 fn level(prev: &[String]) -> (Vec<String>, Vec<String>) {
     // fillers derived from the previous level: the programs themselves, and the two call
     // wrappers around them
-    let mut fillers: Vec<String> = vec!["v1".into(), "v2".into(), "g1(v1)".into(), "v2.g2(v1)".into(), "g1(v2)".into(), "v1.g2(v2)".into()];
+    let mut fillers: Vec<String> = vec!["v1".into(), "v2".into(), "g1(v1)".into(), "v2.g2(v1)".into(), "g1(v2)".into(), "v1.g2(v2)".into(), ".g1(v1)".into(), ".v2".into(), ".g1(.v1)".into()];
     for p in prev {
         fillers.push(format!("({})", p));
         fillers.push(format!("g1({})", p));
@@ -88,7 +88,7 @@ fn level(prev: &[String]) -> (Vec<String>, Vec<String>) {
             // two holes: the full product over the base fillers, and each derived filler paired with v1/v2
             for (i, f) in fillers.iter().enumerate() {
                 for (j, g) in fillers.iter().enumerate() {
-                    if i < 6 && j < 6 || i < 2 || j < 2 {
+                    if i < 9 && j < 9 || i < 2 || j < 2 {
                         out.push(fill(t, &[f, g]));
                     }
                 }
